@@ -142,7 +142,13 @@ func signalEnumeration(c *Ctx, withSelfSignal bool) {
 		c.R.Cap("quick tier delivers a signal at no more than 3 instances per call site (%d of %d instances); thorough delivers SIGINT and SIGTERM at every instance", len(cases), len(lines))
 	}
 	followUp := func(box *hist.Box, s *hist.Source, wantOut map[string]map[string]hist.Entry, vio func(sig, format string, a ...any), cls string) {
-		r2 := box.Run(grog, hist.RunOpts{Args: []string{"build", "//..."}})
+		// the interrupted build may leave its lock file behind; its PID may meanwhile belong to an unrelated live
+		// process (PID reuse): whatever the file says, nobody holds the lock
+		lockFile := filepath.Join(box.Root(), hist.CachePrefix(box.WS()), "lockfile")
+		if _, err := os.Stat(lockFile); err == nil {
+			os.WriteFile(lockFile, []byte(fmt.Sprint(os.Getpid())), 0o644)
+		}
+		r2 := box.Run(grog, hist.RunOpts{Args: []string{"build", "//..."}, Ceiling: 45 * time.Second})
 		if r2.TimedOut {
 			vio("C18:follow-up-build-hangs:after-signal-at:"+cls, "the next build did not exit (stale lock not recovered?)")
 			return
